@@ -85,6 +85,8 @@ class Ctx:
         self.known_hits = {}
         self.last_dump = None
         self.skip_case = False
+        self.case_label = None
+        self.case_state = {}
 
     def count(self, key, n=1):
         self.stats[key] = self.stats.get(key, 0) + n
@@ -191,6 +193,118 @@ def judge_c04(ctx, idx, op, impl, mi, ms, reason):
     return f
 
 
+def judge_c05(ctx, idx, op, impl, mi, ms, reason):
+    f = same(ctx, idx, op, impl, mi, "Impl.Msg.enc / encTo <-> DiameterMessage::encode_to on a fault-injecting writer")
+    if op[0] in ("ench", "encw"):
+        r = kv(reason)
+        ok = impl.startswith("ok")
+        ctx.count(op[0] + ("_ok" if ok else "_err") + ("" if r.get("rep") == "1" else "_unrepresentable"))
+        if op[0] == "encw":
+            ctx.count("encw_mode_%s_%s_%s" % (op[2], op[3], op[4]))
+            if "total" in r and int(op[1]) < int(r["total"]):
+                ctx.count("encw_fault_inside_frame")
+        if ok:
+            if r.get("rep") != "1":
+                f.append(Finding("property", idx, "encoding reports success for a value the wire cannot carry (Time outside the 32-bit 1900-based range, or a length of 2^24 or more)", expected="err", observed=impl, name="C05_range"))
+            elif r.get("cons") == "1" and impl != "ok " + ms:
+                f.append(Finding("property", idx, "encoding reports success although not every octet of the complete frame was handed to the writer", expected="ok " + ms, observed=impl, name="C05_fault"))
+            elif op[0] == "encw" and "total" in r and int(op[1]) < int(r["total"]):
+                f.append(Finding("property", idx, "encoding reports success although the writer failed after %s octets" % op[1], expected="err", observed=impl, name="C05_fault"))
+    else:
+        ctx.count("op_" + op[0] + "_" + impl.split(" ")[0])
+    return f
+
+
+def judge_c14(ctx, idx, op, impl, mi, ms, reason):
+    if op[0] == "dbyname":
+        # any live definition carrying the name is a correct answer (membership, not identity)
+        live = [x for x in ms[len("live:"):].split(";") if x] if ms.startswith("live:") else []
+        ctx.count("dbyname_live%d" % min(len(live), 3))
+        if impl == "none":
+            if live:
+                return [Finding("property", idx, "lookup by name returns nothing although a live definition carries the name", expected="one of " + ";".join(live), observed=impl, name="C14_by_name_iff")]
+        elif impl not in live:
+            return [Finding("property", idx, "lookup by name returns a definition that is not live (or does not carry the name)", expected="one of " + ";".join(live) if live else "none", observed=impl, name="C14_by_name_live")]
+        return []
+    f = same(ctx, idx, op, impl, mi, "Dict (ordered map model) <-> Dictionary")
+    if op[0] in ("dget", "dapp", "dcmd"):
+        ctx.count(op[0] + ("_none" if impl.startswith("none") else "_some"))
+        if f:
+            f[0].kind = "property"
+            f[0].name = "C14_get" if op[0] == "dget" else "C14_app_declared"
+            f[0].msg = "`%s` does not return the most recently supplied definition for exactly that key" % " ".join(op)
+    else:
+        ctx.count("op_" + op[0])
+    return f
+
+
+def judge_c15(ctx, idx, op, impl, mi, ms, reason):
+    if op[0] == "dbyname":
+        return judge_c14(ctx, idx, op, impl, mi, ms, reason)
+    if op[0] == "dec":
+        return judge_c03(ctx, idx, op, impl, mi, ms, reason)
+    if op[0] == "rt":
+        f = judge_c02(ctx, idx, op, impl, mi, ms, reason)
+        for x in f:
+            if x.kind == "property":
+                x.name = "C15_usable"
+                x.msg = "a shipped definition with a recognised type cannot encode and decode a value of its declared type"
+        return f
+    f = same(ctx, idx, op, impl, mi, "Dict.loadDoc/tyOfName <-> parse()")
+    if op[0] == "dget":
+        ctx.count("dget_" + (impl.split(",")[3] if "," in impl else impl))
+        if f:
+            f[0].kind = "property"
+            f[0].name = "C15_names"
+            f[0].msg = "`%s`: the entry for this exact (code, vendor) pair is not the one the document declares" % " ".join(op)
+    return f
+
+
+def judge_c16(ctx, idx, op, impl, mi, ms, reason):
+    label = ctx.case_label or ""
+    f = same(ctx, idx, op, impl, mi, "Impl.Avp.fromName/Msg.addByName <-> Avp::from_name/add_avp_by_name")
+    st = ctx.case_state
+    if op[0] in ("add_by_name", "avp_name"):
+        ctx.count(op[0] + "_" + impl)
+        if impl == "ok" and ms.startswith("def:") and ms != "def:none":
+            st["expect_def"] = ms[4:].split(",")
+        if impl == "ok" and ms == "def:none":
+            f.append(Finding("property", idx, "building an AVP by a name the dictionary does not contain succeeded", expected="err", observed=impl, name="C16_unknown"))
+        if impl == "err":
+            if ms != "def:none":
+                f.append(Finding("property", idx, "building an AVP by a name the dictionary contains failed", expected="ok", observed=impl, name="C16_from_name"))
+            st["frozen"] = dict(st.get("seen", {}))
+    elif op[0] in ("enc", "len", "dump"):
+        if "frozen" in st and not st.get("moved"):
+            # after a failed by-name addition: the AVP list, reported length and encoding are exactly as before
+            want = st["frozen"].get(op[0])
+            ctx.count("unchanged_check")
+            if want is not None and impl != want:
+                f.append(Finding("property", idx, "a failed add_avp_by_name changed the message (`%s` differs)" % op[0], expected=want, observed=impl, name="C16_unknown"))
+        st.setdefault("seen", {})[op[0]] = impl
+        if op[0] == "dump" and "expect_def" in st:
+            d = st.pop("expect_def")
+            m = parse_msg(impl)
+            ctx.count("byname_dump_check")
+            if m and m["avps"]:
+                a = m["avps"][-1]
+                want = (d[0], d[1], ("1" if d[1] != "-" else "0") + d[4] + "0")
+                got = (a["code"], a["vendor"], a["vmp"])
+                if want != got:
+                    f.append(Finding("property", idx, "AVP built by name does not carry the code / vendor id / V bit / M flag the dictionary declares", expected=str(want), observed=str(got), name="C16_from_name"))
+        if op[0] == "enc" and " twin " in " " + label + " ":
+            st.setdefault("encs", []).append(impl)
+            if len(st["encs"]) == 2:
+                ctx.count("twin_check")
+                if st["encs"][0] != st["encs"][1]:
+                    f.append(Finding("property", idx, "the AVP built by name encodes differently from the same AVP built from explicit numbers", expected=st["encs"][1], observed=st["encs"][0], name="C16_from_name"))
+    else:
+        if "frozen" in st and op[0] in ("add", "add_avp", "decode", "new", "reencode"):
+            st["moved"] = True
+        ctx.count("op_" + op[0])
+    return f
+
+
 def judge_c17(ctx, idx, op, impl, mi, ms, reason):
     f = same(ctx, idx, op, impl, mi, "Impl.ofFixed/Value.enc <-> <type>::decode_from/value()/encode_to")
     ctx.count(op[0] + "_" + (op[1] if len(op) > 1 else ""))
@@ -254,6 +368,10 @@ PROPS = {
     "C02": dict(family="c02", extra=shipped_defs, judge=judge_c02, probes=("rt",), title="Encode then decode returns the same message"),
     "C03": dict(family="c03", judge=judge_c03, probes=("dec",), title="Decoding is faithful"),
     "C04": dict(family="c04", judge=judge_c04, probes=("decq",), title="The decoder is total"),
+    "C05": dict(family="c05", judge=judge_c05, probes=("ench", "encw"), title="Encoding never reports success for a frame it did not fully produce"),
+    "C14": dict(family="c14", judge=judge_c14, probes=("dget", "dbyname", "dapp", "dcmd"), title="Dictionary lookups reflect exactly what was loaded, latest wins"),
+    "C15": dict(family="c15", extra=shipped_defs, judge=judge_c15, probes=("dec", "dget", "dbyname", "rt"), title="AVPs are typed by their exact dictionary entry or rejected"),
+    "C16": dict(family="c16", extra=shipped_defs, judge=judge_c16, probes=("add_by_name", "avp_name", "enc", "dump", "len"), title="Building an AVP by name follows the dictionary; failure changes nothing"),
     "C17": dict(family="c17", judge=judge_c17, probes=("fx", "sweep"), title="Four-octet data types are exact bijections"),
     "C18": dict(family="c18", judge=judge_c18, probes=("dump", "get", "acc"), title="AVP lookup and typed accessors agree with the message content"),
 }
